@@ -266,7 +266,7 @@ func runC18(e *Env) {
 				"the emitted list can contain a name that is neither found in the binary nor in the architecture's table: the profile would not load")
 			r.Check(c0.dupfree, "E7.dupfree", key, p.Pos(call.Pos()), "the emitted list is free of duplicates (rebuilt from a key set, or collected from syscalls with distinct numbers)",
 				"the emitted list can contain a name twice (it is not rebuilt from a set and its source is not duplicate-free): the profile would be rejected as a duplicate syscall")
-			srt := c0.sorted || si.sortedAt(arg, call)
+			srt := c0.sorted || si.sortedThrough(arg, call, fr, 0)
 			r.Check(srt, "E3.sorted", key, p.Pos(call.Pos()), "sort.Strings was applied to the emitted list, dominates the emitter, and nothing else receives the list in between",
 				"the emitter can run without the list having been sorted (or the list is handed to another function between sorting and emitting)")
 		}
@@ -663,27 +663,67 @@ func checkSingleDocument(e *Env, p *load.Program) {
 		}
 	}
 	nFatal := 0
+	ems := profileEmitters(p)
+	// functions of the command through which a writer's failure travels to main
+	reachMemo := map[*ssa.Function]int{}
+	var reachesWriter func(f *ssa.Function) bool
+	reachesWriter = func(f *ssa.Function) bool {
+		if f == nil || f.Pkg == nil || f.Pkg.Pkg.Path() != load.PkgProfiler || len(f.Blocks) == 0 {
+			return false
+		}
+		if _, ok := writers[f]; ok {
+			return true
+		}
+		if _, ok := ems[f]; ok {
+			return true
+		}
+		if v, ok := reachMemo[f]; ok {
+			return v == 1
+		}
+		reachMemo[f] = 0
+		for _, c := range flow.Calls(f) {
+			if reachesWriter(flow.Callee(c)) {
+				reachMemo[f] = 1
+				return true
+			}
+		}
+		return false
+	}
 	for _, g := range p.SrcFuncs(load.PkgProfiler) {
-		if g.Name() != "main" || g.Parent() != nil {
+		if g.Parent() != nil {
 			continue
+		}
+		isMain := g.Name() == "main"
+		_, gW := writers[g]
+		_, gE := ems[g]
+		if !isMain && (gW || gE || !reachesWriter(g)) {
+			continue // the writers' own error handling is decided above
 		}
 		for _, c := range flow.Calls(g) {
 			call, ok := c.(*ssa.Call)
-			if !ok || flow.ErrResult(call) == nil {
+			if !ok || !sigHasError(call) {
 				continue
 			}
 			cal := flow.Callee(call)
-			_, isW := writers[cal]
-			_, isEm := profileEmitters(p)[cal]
 			opensOut := false
 			if cal != nil && cal.Signature.Results().Len() == 2 {
 				if n, ok := cal.Signature.Results().At(0).Type().(*types.Named); ok && n.Obj().Pkg() != nil && n.Obj().Pkg().Path() == "io" && strings.HasPrefix(n.Obj().Name(), "Write") {
 					opensOut = cal.Pkg != nil && cal.Pkg.Pkg.Path() == load.PkgProfiler
 				}
 			}
-			if isW || isEm || opensOut {
-				nFatal++
+			if !reachesWriter(cal) && !opensOut {
+				continue
+			}
+			nFatal++
+			if flow.ErrResult(call) == nil {
+				r.Bad("E4.profile", load.FuncName(g)+"/"+calleeName(call)+"-failure", p.Pos(call.Pos()), "the error of "+calleeName(call)+" is discarded: the command goes on with a missing or partial profile")
+				continue
+			}
+			if isMain {
 				failEdgeNoReturn(e, p, "E4.profile", "main/"+calleeName(call)+"-failure", call)
+			} else {
+				// an intermediate function hands the failure on to its caller (which is examined in turn)
+				failEdgeReturnsError(e, p, "E4.profile", load.FuncName(g)+"/"+calleeName(call)+"-failure", call, false)
 			}
 		}
 	}
